@@ -62,7 +62,7 @@ theorem C09_unauthorised_unchanged (e : Env) (y : Sys) (m : StoreMsg) (md : Meta
     (hmeta : y.st.getMeta m.p.dataId = some md) (hun : m.sigValid = false ∨ mayWrite md m.sigDid = false) :
     (step e y (.store m)).2 = y ∧ (step e y (.store m)).1 ≠ .ok := by
   obtain ⟨msg, h⟩ := C09_store_unauthorised e y.st m md hmeta hun
-  simp only [step, stepC, atomic, h]
+  simp only [step, stepBase, stepC, atomic, h]
   split <;> simp
 
 end SaoVerif
